@@ -395,7 +395,11 @@ func c19GateCut(w *World, fn *ssa.Function, facts map[string]bool, tr func(strin
 	return cut
 }
 
-// c19Into: translation of labels of callee h (called at `call`) into the frame tr translates the caller's labels into.
+// c19Into: translation of labels of callee h (called at `call`) into the frame tr translates the caller's labels into:
+// h's parameters are replaced by the arguments of the call; when h is a closure made at the call (`f := func(…){…}`
+// called as f(…)), its captured variables that hold one value for good (written once, no closure writes them, no
+// address taken — singleStore) are replaced by that value as the enclosing function spells it. A filter written as a
+// local closure reads the enclosing function's `desc` as a captured variable; it is the same descriptor.
 func c19Into(h *ssa.Function, call *ssa.Call, tr func(string) string) func(string) string {
 	var names, descs []string
 	for i, p := range h.Params {
@@ -404,7 +408,64 @@ func c19Into(h *ssa.Function, call *ssa.Call, tr func(string) string) func(strin
 			descs = append(descs, desc(call.Call.Args[i]))
 		}
 	}
-	return func(l string) string { return tr(substParams(l, names, descs)) }
+	var fnames, fdescs []string
+	if mc, ok := call.Call.Value.(*ssa.MakeClosure); ok && mc.Fn == ssa.Value(h) {
+		for i, fv := range h.FreeVars {
+			if i >= len(mc.Bindings) {
+				break
+			}
+			if al, ok := mc.Bindings[i].(*ssa.Alloc); ok {
+				if sv := singleStore(al); sv != nil {
+					fnames = append(fnames, fv.Name())
+					fdescs = append(fdescs, desc(sv))
+				}
+			}
+		}
+	}
+	return func(l string) string {
+		if len(fnames) > 0 && strings.Contains(l, "free:") {
+			// captured variables first become placeholders (their replacement is spelled in the caller's frame and must
+			// not be mistaken for a parameter of h), then parameters, then the placeholders are filled in
+			l = c19SubstFree(l, fnames, func(k int) string { return fmt.Sprintf("\x00%d\x00", k) })
+			l = substParams(l, names, descs)
+			for k := range fnames {
+				l = strings.ReplaceAll(l, fmt.Sprintf("\x00%d\x00", k), fdescs[k])
+			}
+			return tr(l)
+		}
+		return tr(substParams(l, names, descs))
+	}
+}
+
+// c19SubstFree replaces the renderings `free:<name>` of the given captured variables.
+func c19SubstFree(l string, names []string, repl func(int) string) string {
+	var sb strings.Builder
+	for i := 0; i < len(l); {
+		j := strings.Index(l[i:], "free:")
+		if j < 0 {
+			sb.WriteString(l[i:])
+			break
+		}
+		sb.WriteString(l[i : i+j])
+		k := i + j + len("free:")
+		e := k
+		for e < len(l) && (l[e] == '_' || l[e] >= '0' && l[e] <= '9' || l[e] >= 'a' && l[e] <= 'z' || l[e] >= 'A' && l[e] <= 'Z') {
+			e++
+		}
+		found := false
+		for n := range names {
+			if names[n] == l[k:e] {
+				sb.WriteString(repl(n))
+				found = true
+				break
+			}
+		}
+		if !found {
+			sb.WriteString(l[i+j : e])
+		}
+		i = e
+	}
+	return sb.String()
 }
 
 func c19Same(l string) string { return l }
@@ -705,6 +766,10 @@ type c19Frame struct {
 	flow   *c19Flow
 	kids   map[*ssa.Call]*c19Frame
 	depth  int
+	mode   Mode // helper frames: what "success" of the helper means (error nil; a predicate answering true / false)
+	w      *World
+	contra map[string]bool         // the facts (root spelling) that contradict the media type this frame tree is built for
+	vkids  map[*ssa.Call]*c19Frame // value frames (c19Flow.kidFor), made on demand
 }
 
 // c19EdgesContradicting: the If edges of fn (all blocks) whose fact, read in the root frame, is one of `facts`.
@@ -728,9 +793,14 @@ func c19EdgesContradicting(fn *ssa.Function, facts map[string]bool, tr func(stri
 }
 
 // grow adds the child frames of fr: calls (inside `within`, all blocks when nil) of module functions with an error
-// result whose success is among fr's own must-pass facts.
+// result whose success is among fr's own must-pass facts, and of module predicates (one bool result) whose answer —
+// true or false, whichever the frame's must-pass facts contain — every path of fr requires. A filter written as
+// `if !keep(x, …) { continue }` moves the filter's tests into keep's frame exactly as `x, err := h(…)` moves the
+// cap/fetch/decode into h's: the element was listed, so keep was entered in this iteration and left through an exit
+// that can answer what the loop demanded.
 func (fr *c19Frame) grow(w *World, within map[int]bool, contra map[string]bool) {
 	fr.kids = map[*ssa.Call]*c19Frame{}
+	fr.w, fr.contra = w, contra
 	if fr.depth >= 2 {
 		return
 	}
@@ -744,7 +814,16 @@ func (fr *c19Frame) grow(w *World, within map[int]bool, contra map[string]bool) 
 			continue
 		}
 		rs := h.Signature.Results()
-		if rs.Len() < 2 || !isErrorType(rs.At(rs.Len()-1).Type()) || !labelHas(fr.labels, c19ErrNil(call)) {
+		mode := Mode{Kind: mErr}
+		switch {
+		case rs.Len() >= 2 && isErrorType(rs.At(rs.Len()-1).Type()) && labelHas(fr.labels, c19ErrNil(call)):
+		case rs.Len() == 1 && isBoolType(rs.At(0).Type()) && labelHas(fr.labels, "T("+desc(call)+")"):
+			// a predicate whose answer `true` is must-pass in this frame (`if !h(...) { continue }`): the element went
+			// through h from its entry to an exit that can return true
+			mode = Mode{Kind: mBool, Want: true}
+		case rs.Len() == 1 && isBoolType(rs.At(0).Type()) && labelHas(fr.labels, "F("+desc(call)+")"):
+			mode = Mode{Kind: mBool, Want: false}
+		default:
 			continue
 		}
 		for p := fr; p != nil; p = p.parent {
@@ -759,11 +838,11 @@ func (fr *c19Frame) grow(w *World, within map[int]bool, contra map[string]bool) 
 		tr := c19Into(h, call, fr.tr)
 		hi := w.Info(h)
 		cut := c19EdgesContradicting(h, contra, tr)
-		hs := hi.summarizeFrom(Mode{Kind: mErr}, entryState(), cut)
+		hs := hi.summarizeFrom(mode, entryState(), cut)
 		if hs == nil || !hs.Complete || len(hs.Exits) == 0 {
 			continue
 		}
-		kid := &c19Frame{fn: h, fi: hi, parent: fr, call: call, tr: tr, cut: cut, labels: hs.Checked, exits: hs.Exits, depth: fr.depth + 1}
+		kid := &c19Frame{fn: h, fi: hi, parent: fr, call: call, tr: tr, cut: cut, labels: hs.Checked, exits: hs.Exits, depth: fr.depth + 1, mode: mode, w: w, contra: contra}
 		kid.flow = c19NewFlow(hi, h.Blocks[0], cut, nil)
 		kid.flow.live[0] = true
 		kid.flow.frame = kid
@@ -804,13 +883,15 @@ func (fr *c19Frame) facts() map[string]string {
 	return out
 }
 
-// c19Spellings: how the values of the frames on the way from the root down to `to` that are, on every path, exactly
-// field `path` of the record X (the decode target, living in frame `to`) are rendered in the root's frame. For a
-// decode target of the root itself this is the rendering of `X.path`; for one inside a helper it adds what the
-// callers see of it (`h(...)#0.subject`, a result of h, a field of the record h returned).
-func c19Spellings(to *c19Frame, within map[int]bool, X *ssa.Alloc, path string) map[string]bool {
+// c19Spellings: how the values of the frames that are, on every path, exactly field `path` of the record X (the
+// decode target, living in one of the frames) are rendered in the root's frame. For a decode target of the root itself
+// this is the rendering of `X.path`; for one inside a helper it adds what the other frames see of it: a result of the
+// helper, a field of the record it returned (`h(...)#0.subject`) — in the loop, or in a predicate the loop hands that
+// record (or the field) to, whose parameters are read as the arguments of the call. A value counts only if it
+// resolves (c19Flow.resolve, at its own program point) to that one field and nothing else.
+func c19Spellings(root *c19Frame, within map[int]bool, X *ssa.Alloc, path string) map[string]bool {
 	out := map[string]bool{}
-	for fr := to; fr != nil; fr = fr.parent {
+	for _, fr := range root.all() {
 		for _, b := range fr.fn.Blocks {
 			if fr.parent == nil && within != nil && !within[b.Index] {
 				continue
@@ -916,18 +997,105 @@ func (f *c19Flow) resolve(v ssa.Value, at ssa.Instruction, depth int) (c19Leaves
 				return out, okAll && len(kid.exits) > 0
 			}
 		}
-	case *ssa.Parameter:
-		// a helper's parameter is the argument of the call this frame was entered through
-		if f.frame != nil && f.frame.parent != nil && f.frame.call != nil {
-			for i, p := range f.fi.Fn.Params {
-				if p == x && i < len(f.frame.call.Call.Args) {
-					return f.frame.parent.flow.resolve(f.frame.call.Call.Args[i], f.frame.call, depth+1)
+	case *ssa.Call:
+		// the single result of a module function (value frame): what each of its returns delivers
+		if kid := f.kidFor(x); kid != nil && kid.mode.Kind == mObj {
+			okAll := true
+			for _, e := range kid.exits {
+				rv := c19ExitResult(e, 0)
+				if rv == nil {
+					return out, false
+				}
+				ls, ok := kid.flow.resolve(rv, e.Ret, depth+1)
+				okAll = okAll && ok
+				for l, lv := range ls {
+					out[l] = lv
 				}
 			}
+			return out, okAll
+		}
+	case *ssa.Parameter:
+		// a helper's parameter is the argument of the call this frame was entered through
+		if pf, arg := f.callerArg(x); pf != nil {
+			return pf.resolve(arg, f.frame.call, depth+1)
 		}
 	}
 	out[desc(v)] = v
 	return out, true
+}
+
+// callerArg: for a parameter of a helper frame, the flow of the frame the helper was called from and the argument
+// bound to the parameter at that call (an SSA value of the caller, evaluated before the call).
+func (f *c19Flow) callerArg(p *ssa.Parameter) (*c19Flow, ssa.Value) {
+	if f.frame == nil || f.frame.parent == nil || f.frame.call == nil || f.frame.parent.flow == nil {
+		return nil, nil
+	}
+	for i, q := range f.fi.Fn.Params {
+		if q == p && i < len(f.frame.call.Call.Args) {
+			return f.frame.parent.flow, f.frame.call.Call.Args[i]
+		}
+	}
+	return nil, nil
+}
+
+// kidFor: the frame of the module function called at `call` (a call of this flow's function): one of the helper
+// frames grown for the must-pass calls, or — for a function with a single, non-error result, called wherever — a
+// value frame made on demand: the function entered from its entry with the call's arguments, leaving through any of
+// its returns (edges contradicting the media type cut as everywhere). A value frame contributes no must-pass facts;
+// it only says what the call's result is made of: a record assembled by a constructor function
+// (`newInfo(x.Subject, x.ArtifactType, …)`) has, in each field, what every return of the constructor puts there, the
+// constructor's parameters being the arguments of this call.
+func (f *c19Flow) kidFor(call *ssa.Call) *c19Frame {
+	fr := f.frame
+	if fr == nil || call.Parent() != fr.fn {
+		return nil
+	}
+	if k := fr.kids[call]; k != nil {
+		return k
+	}
+	if k, done := fr.vkids[call]; done {
+		return k
+	}
+	if fr.vkids == nil {
+		fr.vkids = map[*ssa.Call]*c19Frame{}
+	}
+	fr.vkids[call] = nil
+	h := staticCallee(call)
+	if fr.w == nil || fr.depth >= 3 || h == nil || h.Blocks == nil || !fr.w.IsProductFn(h) || len(call.Call.Args) != len(h.Params) {
+		return nil
+	}
+	if rs := h.Signature.Results(); rs.Len() != 1 || isErrorType(rs.At(0).Type()) {
+		return nil
+	}
+	for p := fr; p != nil; p = p.parent {
+		if p.fn == h {
+			return nil
+		}
+	}
+	tr := c19Into(h, call, fr.tr)
+	hi := fr.w.Info(h)
+	cut := c19EdgesContradicting(h, fr.contra, tr)
+	mode := Mode{Kind: mObj, K: 0}
+	hs := hi.summarizeFrom(mode, entryState(), cut)
+	if hs == nil || !hs.Complete || len(hs.Exits) == 0 {
+		return nil
+	}
+	// every return the cut leaves reachable must be among the exits (a value frame has no failing exits)
+	exitAt := map[*ssa.Return]bool{}
+	for _, e := range hs.Exits {
+		exitAt[e.Ret] = true
+	}
+	kid := &c19Frame{fn: h, fi: hi, parent: fr, call: call, tr: tr, cut: cut, labels: map[string]string{}, exits: hs.Exits, depth: fr.depth + 1, mode: mode, w: fr.w, contra: fr.contra, kids: map[*ssa.Call]*c19Frame{}}
+	kid.flow = c19NewFlow(hi, h.Blocks[0], cut, nil)
+	kid.flow.live[0] = true
+	kid.flow.frame = kid
+	for _, b := range h.Blocks {
+		if r, ok := blockTerm(b).(*ssa.Return); ok && kid.flow.live[b.Index] && !exitAt[r] {
+			return nil
+		}
+	}
+	fr.vkids[call] = kid
+	return kid
 }
 
 // c19ExitResult: the value an exit returns in position k (the phi of a merged return block resolved to the edge the
@@ -991,6 +1159,11 @@ func c19RecordUses(al *ssa.Alloc, retOK bool) (whole []*ssa.Store, ok bool) {
 			if !retOK {
 				return nil, false
 			}
+		case *ssa.Call:
+			// `(&rec).pred(...)`, `pred(&rec, ...)`: a module function that only reads through the pointer
+			if !c19ReadOnlyCallee(x, al, 0) {
+				return nil, false
+			}
 		default:
 			return nil, false
 		}
@@ -998,13 +1171,35 @@ func c19RecordUses(al *ssa.Alloc, retOK bool) (whole []*ssa.Store, ok bool) {
 	return whole, true
 }
 
-// c19PtrReadOnly: the pointer value is only compared with nil and read through (field loads, whole loads).
-func c19PtrReadOnly(v ssa.Value) bool {
+// c19PtrReadOnly: the pointer value is only compared with nil and read through (field loads, whole loads), here and
+// in the module functions it is handed to (statically called, same test on the parameter it is bound to).
+func c19PtrReadOnly(v ssa.Value) bool { return c19PtrReadOnlyN(v, 0) }
+
+// c19ReadOnlyCallee: the call hands v to a statically known module function that only reads through the parameters v
+// is bound to.
+func c19ReadOnlyCallee(call *ssa.Call, v ssa.Value, depth int) bool {
+	h := staticCallee(call)
+	if depth > 3 || h == nil || h.Blocks == nil || !transparentHelper(h) || len(call.Call.Args) != len(h.Params) || call.Call.Value == v {
+		return false
+	}
+	for i, a := range call.Call.Args {
+		if a == v && !c19PtrReadOnlyN(h.Params[i], depth+1) {
+			return false
+		}
+	}
+	return true
+}
+
+func c19PtrReadOnlyN(v ssa.Value, depth int) bool {
 	if v.Referrers() == nil {
 		return false
 	}
 	for _, r := range *v.Referrers() {
 		switch x := r.(type) {
+		case *ssa.Call:
+			if !c19ReadOnlyCallee(x, v, depth) {
+				return false
+			}
 		case *ssa.DebugRef:
 		case *ssa.UnOp:
 			if x.Op != token.MUL {
@@ -1043,9 +1238,20 @@ func (f *c19Flow) fieldOfAddr(addr ssa.Value, name string, at ssa.Instruction, d
 		return out, false, true
 	}
 	switch x := addr.(type) {
+	case *ssa.Parameter:
+		// a record the caller handed in by pointer: what the caller's record holds when the call is made, provided
+		// this function only reads through the pointer (then it still holds that at `at`)
+		if pf, arg := f.callerArg(x); pf != nil && c19PtrReadOnly(x) {
+			return pf.fieldOfAddr(arg, name, f.frame.call, depth+1)
+		}
+		return nil, false, false
 	case *ssa.Alloc:
 		if x.Parent() != f.fi.Fn {
 			return nil, false, false
+		}
+		if f.chain[x] {
+			ls, ok := f.field(x, name, at, depth+1)
+			return ls, ok, true
 		}
 		whole, ok := c19RecordUses(x, f.frame != nil && f.frame.parent != nil)
 		if !ok {
@@ -1111,6 +1317,30 @@ func (f *c19Flow) fieldOfAddr(addr ssa.Value, name string, at ssa.Instruction, d
 			}
 		}
 		return out, okAll, true
+	case *ssa.Call:
+		// a record a constructor function handed back by pointer (value frame), only read in this function
+		kid := f.kidFor(x)
+		if kid == nil || kid.mode.Kind != mObj || !c19PtrReadOnly(x) {
+			return nil, false, false
+		}
+		okAll := true
+		for _, e := range kid.exits {
+			rv := c19ExitResult(e, 0)
+			if rv == nil {
+				return out, false, true
+			}
+			ls, ok, known := kid.flow.fieldOfAddr(rv, name, e.Ret, depth+1)
+			if !known {
+				out[desc(rv)+"."+name] = nil
+				okAll = false
+				continue
+			}
+			okAll = okAll && ok
+			for l, lv := range ls {
+				out[l] = lv
+			}
+		}
+		return out, okAll, true
 	}
 	return nil, false, false
 }
@@ -1122,6 +1352,11 @@ func (f *c19Flow) fieldOfValue(val ssa.Value, name string, at ssa.Instruction, d
 		return out, false, true
 	}
 	switch x := val.(type) {
+	case *ssa.Parameter:
+		// a record the caller handed in by value: the field of the argument, as the caller's frame sees it at the call
+		if pf, arg := f.callerArg(x); pf != nil {
+			return pf.fieldOfValue(arg, name, f.frame.call, depth+1)
+		}
 	case *ssa.UnOp:
 		if x.Op == token.MUL {
 			return f.fieldOfAddr(x.X, name, x, depth+1)
@@ -1131,6 +1366,30 @@ func (f *c19Flow) fieldOfValue(val ssa.Value, name string, at ssa.Instruction, d
 			out["zero value ."+name] = nil
 			return out, true, true
 		}
+	case *ssa.Call:
+		// a record built by a constructor function (value frame): the field of what each of its returns delivers
+		kid := f.kidFor(x)
+		if kid == nil || kid.mode.Kind != mObj {
+			return nil, false, false
+		}
+		okAll := true
+		for _, e := range kid.exits {
+			rv := c19ExitResult(e, 0)
+			if rv == nil {
+				return out, false, true
+			}
+			ls, ok, known := kid.flow.fieldOfValue(rv, name, e.Ret, depth+1)
+			if !known {
+				out[desc(rv)+"."+name] = nil
+				okAll = false
+				continue
+			}
+			okAll = okAll && ok
+			for l, lv := range ls {
+				out[l] = lv
+			}
+		}
+		return out, okAll, true
 	case *ssa.Extract:
 		call, isCall := x.Tuple.(*ssa.Call)
 		if !isCall || f.frame == nil || f.frame.kids[call] == nil {
@@ -1301,6 +1560,74 @@ func c19ConstTests(f *c19Flow, lb map[int]bool, target map[int]bool, k string) (
 		}
 	}
 	return
+}
+
+// c19EqConst: cond, evaluating to `truth`, says `V == k` for the string constant k; returns V.
+func c19EqConst(cond ssa.Value, truth bool, k string) ssa.Value {
+	for {
+		u, ok := cond.(*ssa.UnOp)
+		if !ok || u.Op != token.NOT {
+			break
+		}
+		cond, truth = u.X, !truth
+	}
+	bo, ok := cond.(*ssa.BinOp)
+	if !ok || !((bo.Op == token.EQL && truth) || (bo.Op == token.NEQ && !truth)) {
+		return nil
+	}
+	if kc, isK := bo.Y.(*ssa.Const); isK && kc.Value != nil && constString(kc) == fmt.Sprintf("%q", k) {
+		return bo.X
+	}
+	if kc, isK := bo.X.(*ssa.Const); isK && kc.Value != nil && constString(kc) == fmt.Sprintf("%q", k) {
+		return bo.Y
+	}
+	return nil
+}
+
+// c19HelperConstTests: the tests `V == k` of a helper frame (a module function the element must have come through
+// successfully: error nil, or a predicate answering what the loop demanded) that *together* are must-pass for the
+// helper's success: the If edges of the helper saying `V == k`, and — for a predicate — the exits that return the
+// comparison itself (`return V == k`, `return a && V == k`: the exit answers true only if the comparison did). ok is
+// true when, with all those If edges cut, every exit that can still succeed is one of those returns: every successful
+// run of the helper has then evaluated one of the returned tests to "equal". The caller checks every V (resolved at
+// its test) against what the listed descriptor carries.
+func c19HelperConstTests(fr *c19Frame, k string) (vals []ssa.Value, at []ssa.Instruction, ok bool) {
+	if fr.parent == nil {
+		return nil, nil, false
+	}
+	cut := map[edgeKey]bool{}
+	for e := range fr.cut {
+		cut[e] = true
+	}
+	for _, b := range fr.fn.Blocks {
+		iff, isIf := blockTerm(b).(*ssa.If)
+		if !isIf || len(b.Succs) != 2 || !fr.flow.live[b.Index] {
+			continue
+		}
+		for j := 0; j < 2; j++ {
+			if V := c19EqConst(iff.Cond, j == 0, k); V != nil {
+				cut[edgeKey{b.Index, j}] = true
+				vals, at = append(vals, V), append(at, iff)
+			}
+		}
+	}
+	rest := fr.fi.summarizeFrom(fr.mode, entryState(), cut)
+	if rest == nil || !rest.Complete {
+		return nil, nil, false
+	}
+	for _, e := range rest.Exits {
+		var V ssa.Value
+		if fr.mode.Kind == mBool {
+			if rv := c19ExitResult(e, 0); rv != nil {
+				V = c19EqConst(rv, fr.mode.Want, k)
+			}
+		}
+		if V == nil {
+			return vals, at, false // a success of the helper that passes no such test
+		}
+		vals, at = append(vals, V), append(at, e.Ret)
+	}
+	return vals, at, len(vals) > 0
 }
 
 // ---------- push (d) -------------------------------------------------------------------------
